@@ -94,12 +94,17 @@ class SymBool:
         self.t = t
 
     def __bool__(self):
-        t = z3.simplify(self.t)
+        t = self.t
         if z3.is_true(t):
             return True
         if z3.is_false(t):
             return False
         if _RUN is None:
+            t = z3.simplify(t)
+            if z3.is_true(t):
+                return True
+            if z3.is_false(t):
+                return False
             raise Unsupported("symbolic bool used outside a run")
         return _RUN.branch(t)
 
@@ -178,27 +183,38 @@ class SymBool:
 
 class SymNum:
     """A finite number.  is_int tells whether the z3 sort is Int."""
-    __slots__ = ("t",)
+    __slots__ = ("t", "is_int")
 
-    def __init__(self, t):
+    def __init__(self, t, is_int=None):
         self.t = t
-
-    # ---- helpers
-    @property
-    def is_int(self):
-        return self.t.is_int()
+        self.is_int = t.is_int() if is_int is None else is_int
 
     def _bin(self, o, f, rev=False):
         if isinstance(o, SymBool):
             o = o._num()
         if isinstance(o, SymNum):
-            a, b = _coerce(self.t, o.t)
+            a, b = self.t, o.t
+            if self.is_int != o.is_int:
+                if self.is_int:
+                    a = z3.ToReal(a)
+                else:
+                    b = z3.ToReal(b)
         elif _is_num(o) or isinstance(o, bool):
-            if isinstance(o, float) and math.isnan(o):
-                raise Unsupported("NaN operand")
-            if isinstance(o, float) and math.isinf(o):
-                return None  # caller handles infinities
-            a, b = _coerce(self.t, _const(o))
+            if isinstance(o, float):
+                if math.isnan(o):
+                    raise Unsupported("NaN operand")
+                if math.isinf(o):
+                    return None  # caller handles infinities
+                a, b = self.t, _const(o)
+                if self.is_int:
+                    a = z3.ToReal(a)
+            elif isinstance(o, fractions.Fraction):
+                a, b = self.t, _const(o)
+                if self.is_int:
+                    a = z3.ToReal(a)
+            else:
+                a = self.t
+                b = z3.IntVal(int(o)) if self.is_int else z3.RealVal(int(o))
         else:
             try:
                 import numpy as _np
